@@ -358,10 +358,12 @@ theorem allowed_tagManifest (cx : Ctx Body Dig) (p : Prof) (g : Reg Body Dig) (r
   rename_i b sk
   have hl := (fetchManifest_body cx p g rs repo d b sk hres).1
   intro q hq
-  rw [List.mem_append] at hq
-  rcases hq with hq | hq
+  split at hq
   · exact hf q hq
-  · exact allowed_putManifest cx p _ _ repo d b (.tag t) false (Or.inr hl) q hq
+  · rw [List.mem_append] at hq
+    rcases hq with hq | hq
+    · exact hf q hq
+    · exact allowed_putManifest cx p _ _ repo d b (.tag t) false (Or.inr hl) q hq
 
 theorem allowed_mountBlob (cx : Ctx Body Dig) (p : Prof) (g : Reg Body Dig) (rs : RState) (repo src : String)
     (d : Desc Dig) : ∀ q ∈ (mountBlob cx p g rs repo d src).trace, Allowed cx q = true := by
